@@ -88,6 +88,10 @@ func newCliWorld(r *Run, org origin, uri string, fate func(nr *netReq) *netFate)
 			r.Probe("client-goroutine-held")
 		}
 	}
+	r.RestBarrier = func() {
+		w.mu.Lock()
+		w.mu.Unlock() //nolint:staticcheck
+	}
 	tr := newSimTransport(r)
 	w.net = &cliNet{r: r, tr: tr, org: org, fateOf: fate}
 	w.c = &gohlslib.Client{
@@ -241,9 +245,11 @@ func (w *cliWorld) run() {
 			break
 		}
 		end := w.limit
+		w.mu.Lock()
 		if w.waitSeen && w.waitAt+w.afterWait < end {
 			end = w.waitAt + w.afterWait
 		}
+		w.mu.Unlock()
 		if now >= end {
 			break
 		}
